@@ -245,15 +245,49 @@ fn nan_scoring_case(seed: u64, idx: u64) -> Out {
     out
 }
 
+/// A soft-max output layer with ONE unit predicts the constant [1.0]; target and prediction
+/// both have their (only) maximum at index 0, so arg-max agreement holds for every sample and
+/// the accuracy is 1 whatever the target values are.
+fn single_class_case(seed: u64, idx: u64) -> Out {
+    let mut rng = Rng::stream(seed, "single_class", idx);
+    let n = *rng.pick(&[1usize, 2, 7, 64, 65, 130]);
+    let inputs = rng.range(1, 4);
+    let cfg = NetCfg::plain(Sh::Flat(inputs), vec![LCfg::Dense { n: rng.range(1, 4), act: Act::Tanh, bias: true, dropout: None }, LCfg::Dense { n: 1, act: Act::Softmax, bias: rng.bool(), dropout: None }]);
+    let params = gen_params(&cfg, &mut rng, -1.0, 1.0).unwrap();
+    let mut out = Out::new(format!("single class n{} {}", n, cfg.describe()));
+    let mut net = match build(&cfg, Some(&params)) {
+        Ok(n) => n,
+        Err(m) => {
+            out.inconclusive = Some(format!("cannot build: {}", m));
+            return out;
+        }
+    };
+    net.set_objective(lib_obj(*rng.pick(&[Obj::MSE, Obj::AE, Obj::CE])), None);
+    let x_t: Vec<Tensor> = (0..n).map(|_| tensor_of(cfg.input, &(0..inputs).map(|_| rng.f32_in(-1.0, 1.0)).collect::<Vec<f32>>())).collect();
+    let t_t: Vec<Tensor> = (0..n).map(|_| Tensor::single(vec![*rng.pick(&[0.0f32, 1.0, 0.3, -2.0, 5.0])])).collect();
+    let (xr, tr): (Vec<&Tensor>, Vec<&Tensor>) = (x_t.iter().collect(), t_t.iter().collect());
+    let tol = *rng.pick(&[1e-6f32, 0.1, 0.5]);
+    match guard(|| net.validate(&xr, &tr, tol)) {
+        Err(m) => out.viol("aggregate:validate-panic:single-class", format!("validate panicked: {}", short(&m, 160)), J::Null),
+        Ok((_, acc)) => {
+            out.count("single_unit_softmax_validations", 1);
+            if (acc as f64 - 1.0).abs() > (n as f64 + 4.0) * 2.0 * EPS32 {
+                out.viol("aggregate:validate-accuracy:argmax:single-class", format!("one-unit soft-max output, {} samples: accuracy {:e}, arg-max agreement holds for every sample (1.0)", n, acc), J::obj().set("network", J::s(&cfg.describe())));
+            }
+        }
+    }
+    out
+}
+
 impl Monitor for C12 {
     fn id(&self) -> &'static str {
         "C12"
     }
     fn gens(&self, tier: Tier) -> Vec<(&'static str, u64)> {
-        vec![("aggregate", tier.pick(8400, 168_000)), ("ties", tier.pick(600, 12_000)), ("structures", tier.pick(30_000, 600_000)), ("nan_scoring", tier.pick(3_000, 60_000))]
+        vec![("aggregate", tier.pick(8400, 168_000)), ("ties", tier.pick(600, 12_000)), ("structures", tier.pick(30_000, 600_000)), ("nan_scoring", tier.pick(3_000, 60_000)), ("single_class", tier.pick(1_500, 30_000))]
     }
     fn rule(&self) -> &'static str {
-        "case i -> objective (i mod 7), data-set size from {1,2,3,40,63,64,65,127,128,129,200,257} (i/7 mod 12; the parallel chunk is 64), soft-max output or not, output width 1 or >1, tolerance from {f32::MIN_POSITIVE, 1e-9, log-uniform [1e-12,1e-6], log-uniform [1e-6,0.5]}, pool of 1..16 threads; random network ending in a dense layer (dense/conv/deconv/pool before it); in every fifth non-soft-max case a hidden dense layer is soft-max; in every fourth case the output layer itself is the range of a loop connection (1..3 iterations, any of the five loop accumulations, with and without input skips). One data set in five is a slow walk (consecutive inputs a few 1e-6 apart), one in ten repeats earlier inputs exactly. One squared-error case in six contains a sample whose loss overflows to +inf (target 3e20): the reported loss must then not be finite and the accuracy still averages over all samples. One non-soft-max case in five uses exactly one-hot targets (scored by the tolerance fraction all the same). Soft-max targets are one-hot, soft probabilities, log-probabilities (all entries negative) or arbitrary reals with a unique maximum. Targets are generated from the network's own predictions so that every component is clearly inside (an exact hit or |t-p| <= tol/2) or clearly outside (>= 2 tol + 0.01) the tolerance and arg-max ties do not occur. Oracle: harness-side aggregation over the library's own predict() and objective loss(): mean loss (f64, bound n*eps), accuracy by the stated rule; predict_batch(xs)[i] must be bit-equal to predict(xs[i]) in input order (also for 0 inputs), predict(x) bit-equal to the last activation of forward(x). Every second case repeats validate() and predict_batch() on the same network with a shorter prefix of the data. ties: soft-max outputs with exactly equal maxima (uniform distribution): the accuracy must equal the frequency of some single class among the targets, whatever the tie-breaking convention. structures: chains of 3..8 layers (dense / spatial / mixed) with 0..2 skip connections and 1..3 loop connections in any arrangement the library accepts (disjoint, nested, overlapping ranges, with and without input skips), all 5 x 5 accumulation pairs: predict bit-equal to the final activation of forward, predict_batch bit-equal to predict of each input (configurations on which both forward and predict panic are counted, not judged). nan_scoring: non-soft-max outputs with NaN target components, NaN inputs (NaN predictions) or a NaN tolerance: a component whose comparison involves NaN is not within the tolerance and scores as a miss; only the accuracy is judged. Distinct = distinct (network, objective, size, tolerance) descriptors."
+        "case i -> objective (i mod 7), data-set size from {1,2,3,40,63,64,65,127,128,129,200,257} (i/7 mod 12; the parallel chunk is 64), soft-max output or not, output width 1 or >1, tolerance from {f32::MIN_POSITIVE, 1e-9, log-uniform [1e-12,1e-6], log-uniform [1e-6,0.5]}, pool of 1..16 threads; random network ending in a dense layer (dense/conv/deconv/pool before it); in every fifth non-soft-max case a hidden dense layer is soft-max; in every fourth case the output layer itself is the range of a loop connection (1..3 iterations, any of the five loop accumulations, with and without input skips). One data set in five is a slow walk (consecutive inputs a few 1e-6 apart), one in ten repeats earlier inputs exactly. One squared-error case in six contains a sample whose loss overflows to +inf (target 3e20): the reported loss must then not be finite and the accuracy still averages over all samples. One non-soft-max case in five uses exactly one-hot targets (scored by the tolerance fraction all the same). Soft-max targets are one-hot, soft probabilities, log-probabilities (all entries negative) or arbitrary reals with a unique maximum. Targets are generated from the network's own predictions so that every component is clearly inside (an exact hit or |t-p| <= tol/2) or clearly outside (>= 2 tol + 0.01) the tolerance and arg-max ties do not occur. Oracle: harness-side aggregation over the library's own predict() and objective loss(): mean loss (f64, bound n*eps), accuracy by the stated rule; predict_batch(xs)[i] must be bit-equal to predict(xs[i]) in input order (also for 0 inputs), predict(x) bit-equal to the last activation of forward(x). Every second case repeats validate() and predict_batch() on the same network with a shorter prefix of the data. ties: soft-max outputs with exactly equal maxima (uniform distribution): the accuracy must equal the frequency of some single class among the targets, whatever the tie-breaking convention. structures: chains of 3..8 layers (dense / spatial / mixed) with 0..2 skip connections and 1..3 loop connections in any arrangement the library accepts (disjoint, nested, overlapping ranges, with and without input skips), all 5 x 5 accumulation pairs: predict bit-equal to the final activation of forward, predict_batch bit-equal to predict of each input (configurations on which both forward and predict panic are counted, not judged). nan_scoring: non-soft-max outputs with NaN target components, NaN inputs (NaN predictions) or a NaN tolerance: a component whose comparison involves NaN is not within the tolerance and scores as a miss; only the accuracy is judged. single_class: a soft-max output layer with one unit (constant prediction 1): arg-max agreement holds for every sample, accuracy 1 whatever the targets. Distinct = distinct (network, objective, size, tolerance) descriptors."
     }
     fn assumptions(&self) -> Vec<&'static str> {
         vec!["boundary semantics (|t-p| == tol, arg-max ties) are unspecified and not generated; NaN losses are not judged, a NaN comparison is read as not within the tolerance (nan_scoring)", "per-sample predict() and loss() are trusted here (they are the subject of C02/C06)"]
@@ -267,6 +301,9 @@ impl Monitor for C12 {
         }
         if gen == "nan_scoring" {
             return nan_scoring_case(seed, idx);
+        }
+        if gen == "single_class" {
+            return single_class_case(seed, idx);
         }
         let mut rng = Rng::stream(seed, gen, idx);
         let obj = OBJS[(idx % 7) as usize];
